@@ -270,7 +270,7 @@ struct App : AppSink {
                 break;
             }
             case Action::broker_publish:
-                b.publish_to_client("in/" + std::to_string(b.out.size()) + "/", "in/" + std::to_string(b.out.size()) + "/" + a.topic, a.payload, (uint8_t)a.qos, a.retain, a.props);
+                b.publish_to_client("in/" + std::to_string(b.out.size()) + "/", "in/" + std::to_string(b.out.size()) + "/" + a.topic, a.payload, (uint8_t)a.qos, a.retain, a.props, a.fit_delta);
                 break;
             case Action::net_kill:
                 if (auto c = b.current()) { w.log(Ev::fault, c->id, -1, 0, "scripted connection loss"); error_code ec = w.reconnectable_error(a.ec); w.kill(c, ec, ec == asio::error::eof ? error_code(asio::error::broken_pipe) : ec, "scripted kill"); }
